@@ -185,6 +185,60 @@ write_node = nested_call(
 prune_plan(
     plan, required_nodes=required_nodes, output_node=output_node, inplace=True
 )""") for n in pws.body)
+    # the whole loop of plan_with_value_stores and the whole of _add_value_store, statement for statement: the model of the
+    # physical plan (Model/Phys.lean: `addValueStore`, `planWithValueStores`) is a transcription of exactly this text, and the
+    # generated comparisons use the harness's own store classes - a branch on a property of the store (its class, a flag)
+    # would escape them
+    loops = [n for n in pws.body if isinstance(n, ast.For)]
+    facts["registryLoopShape"] = len(loops) == 1 and _same(loops[0], """
+for node, registry_value in registry.mapping.items():
+    is_stale = node in stale_nodes
+    write_node, read_node = _add_value_store(
+        plan, node, registry_value, is_stale=is_stale
+    )
+    if write_node:
+        required_nodes.add(write_node)
+    read_node_lookup[node] = read_node
+""")
+    facts["addValueStoreShape"] = _same(avs, '''
+def _add_value_store(
+    plan: Plan, node: Node, registry_value: RegistryValue, *, is_stale: bool
+) -> tuple[Node | None, Node]:
+    def nested_call(*args):
+        call = plan._call(registry_value.stack_frame, *args)
+        if type(node) is Call:
+            call.scope = get_full_call_scope(node)
+        return call
+
+    out_edges = list(plan.graph.out_edges(node, keys=True))
+    value_store = registry_value.value_store
+
+    with plan.scope(*node.scope):
+        value_store_lit = plan.lit(value_store)
+        write_node = None
+        read_node = nested_call(value_store.__class__.read, value_store_lit)
+        if is_stale:
+            if registry_value.is_source:
+                write_node = plan.lit(Barrier)
+                for predecessor in plan.graph.predecessors(node):
+                    plan.graph.add_edge(predecessor, write_node, Dependency())
+            else:
+                write_node = nested_call(
+                    value_store.__class__.write, value_store_lit, node
+                )
+            plan.graph.add_edge(write_node, read_node, Dependency())
+
+    for _, successor, dependency in out_edges:
+        plan.graph.remove_edge(node, successor, dependency)
+        dependency_type = type(dependency)
+        if dependency_type in (PositionalArg, KeywordArg):
+            plan.graph.add_edge(read_node, successor, dependency)
+        elif is_stale:
+            assert dependency_type is Dependency
+            plan.graph.add_edge(write_node, successor, dependency)
+
+    return write_node, read_node
+''')
     names = sorted(facts)
 
     def stmt_list(xs):
